@@ -2,7 +2,7 @@
    Property theorems only; proofs are in Proofs/{Base64,Meta,SrvStream}Proofs.v. *)
 From Coq Require Import Permutation.
 From Goat Require Import Base.Bytes Model.Base64 Model.Meta Model.SrvStream Model.MetaSys.
-From Goat Require Import Proofs.Base64Proofs Proofs.MetaProofs Proofs.SrvStreamProofs Proofs.MetaSysProofs.
+From Goat Require Import Proofs.Base64Proofs Proofs.MetaProofs Proofs.SrvStreamProofs Proofs.MetaSysProofs Proofs.SrvStreamFaults.
 Open Scope N_scope.
 
 (* base64 under -bin keys is byte-exact for every byte string (NUL, 0xFF and
@@ -142,6 +142,64 @@ Theorem C04_sys_no_invention : forall (m m' : mdmap) k,
 Proof. exact perm_no_invention. Qed.
 Print Assumptions C04_sys_no_invention.
 
+(* unary: for EVERY program of grpc.SetHeader / SendHeader / SetTrailer calls of a
+   unary handler ([urun] on the collector) and every iteration order of the joined
+   maps: what the caller side decodes from the reply envelope (header list: stats
+   InHeader; trailer list: on the wire) is the normalised join of the maps the
+   accepted calls passed, in call order - a call after SendHeader is refused and
+   contributes nothing *)
+Theorem C04_unary_program : forall (emit : mdmap -> mdmap) (ops : list (uop mdmap)),
+  (wf_md (emit (join (uaccepted_h uinit ops))) = true ->
+   to_md (unary_header_kvs emit (fst (urun uinit ops))) = Some (norm (emit (join (uaccepted_h uinit ops))))) /\
+  (wf_md (emit (join (uaccepted_t ops))) = true ->
+   to_md (unary_trailer_kvs emit (fst (urun uinit ops))) = Some (norm (emit (join (uaccepted_t ops))))).
+Proof.
+  intros emit ops. destruct (urun_collects (uinit (MD := mdmap)) ops) as [Hh Ht]. cbn [uinit uh ut app] in Hh, Ht.
+  unfold unary_header_kvs, unary_trailer_kvs. rewrite Hh, Ht.
+  split; intro H; apply codec_exact; exact H.
+Qed.
+Print Assumptions C04_unary_program.
+
+(* the server stream object under transport-write failures: for EVERY program and
+   EVERY pattern of failing writes, at most one envelope that reaches the peer
+   carries header metadata, and it carries exactly the maps the object retained
+   (a SendHeader whose write failed is retried by the next flush), in order *)
+Theorem C04_faults_headers : forall (MD P ST : Type) (s : sstate MD) (w : list (sop MD P ST * bool)),
+  hsent s = false ->
+  match filter has_hdr (sdelivered s w) with
+  | [] => True
+  | e :: rest => rest = [] /\ hdr_md e = Some (hdrs s ++ retained_hdrs s w)
+  end.
+Proof. intros MD P ST. exact faults_headers. Qed.
+Print Assumptions C04_faults_headers.
+
+(* ... what the code LOSES: the first message (or the final status) marks the
+   pending headers sent before it is written; if that write fails no envelope will
+   ever carry them *)
+Theorem C04_faults_headers_lost : forall (MD P ST : Type) (s : sstate MD) (o : sop MD P ST) (w : list (sop MD P ST * bool)),
+  hsent s = false ->
+  (exists p, o = SendMsg p) \/ (exists st, o = SendTrailer st /\ tsent s = false) ->
+  filter has_hdr (sdelivered s ((o, false) :: w)) = [].
+Proof. intros MD P ST. exact faults_headers_lost. Qed.
+Print Assumptions C04_faults_headers_lost.
+
+(* ... what it KEEPS: a SendHeader whose write failed leaves its map pending *)
+Theorem C04_faults_sendheader_retried : forall (MD P ST : Type) (s : sstate MD) (md : MD) (p : P) (w : list (sop MD P ST * bool)),
+  hsent s = false ->
+  sdelivered s ((SendHeader md, false) :: (SendMsg p, true) :: w) =
+  WMsg (Some (hdrs s ++ [md])) p :: sdelivered (mkS (hdrs s ++ [md]) true (trls s) (tsent s)) w.
+Proof. intros MD P ST. exact faults_sendheader_retried. Qed.
+Print Assumptions C04_faults_sendheader_retried.
+
+(* ... and the first SendTrailer, successful or not, closes the stream for
+   writing: no trailer envelope follows it *)
+Theorem C04_faults_trailer_once : forall (MD P ST : Type) (s : sstate MD) (st : ST) (wok : bool) (w : list (sop MD P ST * bool)),
+  tsent s = false ->
+  Forall (fun e : wenv MD P ST => is_trailer e = false)
+         (sdelivered (fst (fst (sstep s (SendTrailer st : sop MD P ST) wok))) w).
+Proof. intros MD P ST. exact faults_trailer_once. Qed.
+Print Assumptions C04_faults_trailer_once.
+
 (* non-vacuity *)
 Example C04_ex_codec :
   to_md (to_kv [(B"Trace-Bin", [bz [0; 255; 10]%Z; []]); (B"X-Key", [B"a"; B"b"])])
@@ -162,4 +220,18 @@ Proof. vm_compute. reflexivity. Qed.
 Example C04_ex_failed_send_keeps_headers :
   swritten (@sinit nat) [SetHeader 1%nat; SendMsgBad 9%nat; SetHeader 2%nat; SendTrailer 0%nat]
   = [WTrailer (Some [1%nat; 2%nat]) [] 0%nat].
+Proof. vm_compute. reflexivity. Qed.
+Example C04_ex_unary_program :
+  to_md (unary_header_kvs (fun m => m)
+           (fst (urun uinit [USetHeader [(B"A-Bin", [bz [7]%Z])]; USendHeader [(B"a-bin", [bz [0]%Z]); (B"x", [B"1"])];
+                             USetHeader [(B"late", [B"refused"])]; USetTrailer [(B"t", [B"z"])]])))
+  = Some [(B"a-bin", [bz [7]%Z; bz [0]%Z]); (B"x", [B"1"])].
+Proof. vm_compute. reflexivity. Qed.
+Example C04_ex_faults_lost :
+  sdelivered (@sinit nat) [(SetHeader 1%nat, true); (SendMsg 5%nat, false); (SendMsg 6%nat, true); (SendTrailer 0%nat, true)]
+  = [WMsg None 6%nat; @WTrailer nat nat nat None [] 0%nat].
+Proof. vm_compute. reflexivity. Qed.
+Example C04_ex_faults_retried :
+  sdelivered (@sinit nat) [(SetHeader 1%nat, true); (SendHeader 2%nat, false); (SendTrailer 0%nat, true)]
+  = [@WTrailer nat nat nat (Some [1%nat; 2%nat]) [] 0%nat].
 Proof. vm_compute. reflexivity. Qed.
